@@ -397,6 +397,25 @@ def wipe_store(root):
                 os.remove(p)
 
 
+def path_spelling(scratch, pick):
+    """A store_dir for World / WorldPool that names <scratch>/<something>/store through a spelling that is NOT the
+    canonical absolute path: through a symbolic link to a directory, with a '..' segment, with a doubled separator.
+    (How the caller spells the path of a store must not matter.) pick: any integer."""
+    kind = pick % 4
+    if kind == 0:
+        return "store"
+    if kind == 1:
+        os.makedirs(os.path.join(scratch, "real"), exist_ok=True)
+        link = os.path.join(scratch, "link")
+        if not os.path.islink(link):
+            os.symlink(os.path.join(scratch, "real"), link)
+        return "link/store"
+    if kind == 2:
+        os.makedirs(os.path.join(scratch, "dd"), exist_ok=True)
+        return "dd/../store"
+    return "." + os.sep + os.sep + "store"
+
+
 class WorldPool:
     """Reuses one scratch store directory for many sequences: wipe + fresh FileHashStore instance
     + fresh model per sequence."""
